@@ -84,7 +84,7 @@ def worst(rows, listed_classes):
     return kind, sub, cls
 
 
-def shrink(P, binp, case, want_kind, want_sub, listed, rounds=12, cap=160, deadline=None):
+def shrink(P, binp, case, want_kind, want_sub, listed, rounds=12, cap=160, deadline=None, orig_panicked=False):
     best = case
     for _ in range(rounds):
         if deadline and time.time() > deadline:
@@ -103,6 +103,10 @@ def shrink(P, binp, case, want_kind, want_sub, listed, rounds=12, cap=160, deadl
         ok = []
         for c in cands:
             k, s, _ = worst(o.rows.get(c["id"], []), listed)
+            r = o.results.get(c["id"])
+            # a candidate on which the harness panics is only a smaller instance of a case that panicked itself
+            if isinstance(r, dict) and "harness_panic" in r and not orig_panicked:
+                continue
             if k == want_kind and s == want_sub:
                 ok.append(c)
         if not ok:
@@ -250,7 +254,9 @@ def main(P, argv):
     deadline = time.time() + (600 if tier == "thorough" else 120)
 
     def report_violation(c, s, cls, Q=P):
-        small = shrink(Q, hb["bin"], c, "viol", s, listed if Q is P else set(), deadline=deadline)
+        r0 = o.results.get(c["id"]) if Q is P else None
+        small = shrink(Q, hb["bin"], c, "viol", s, listed if Q is P else set(), deadline=deadline,
+                       orig_panicked=(not isinstance(r0, dict)) or "harness_panic" in r0)
         small["id"] = 0
         o2 = evaluate(Q, hb["bin"], [small])
         path = V.write_replay(prop, "violation", dict(
